@@ -35,4 +35,17 @@ CLAIMS['C18'] = {
             'one run per Write-call index x {one-shot, permanent} over histories whose last packet needs 0/1/2/3/many stuffing bytes; Mon_C18 '
             'requires err wrapping the injected cause and n <= accepted for the call in which the fault fired. (Reader half: see evidence.)',
     'note': TRUST, 'technique': 'TLA+ model checking (TLC) + exhaustive fault-position enumeration judged by trace validation (Mon_C18)', 'ref': 'DESIGN.md 4 C18'}
+CLAIMS['C02'] = {
+    'text': 'Demux.tla (stream generator x demuxer model, length-accurate isPSIComplete/parsePSIData/parsePESData arithmetic) is model-checked for '
+            'C02_Carried and C02_NoReadAhead; one stream per transition of its state graph (every split offered at every offset, pointer fields, '
+            'multi-section units, interleavings, counter wrap) plus seeded random streams from an independent reference multiplexer are demuxed '
+            'by the real Demuxer; Mon_C02 requires per-PID FIFO equality of deliveries and carried units, nothing left at EOF, no error, and '
+            'bytes pulled = 188 x index of the final packet for every PAT/PMT.',
+    'note': TRUST, 'technique': 'TLA+ model checking (TLC) + trace validation of real-code demux traces (Mon_C02)', 'ref': 'DESIGN.md 4 C02'}
+CLAIMS['C06'] = {
+    'text': 'Demux.tla with a dup/drop channel and a clean twin in lock-step is model-checked for C06_DupHarmless and C06_LossSafe (counterexamples '
+            'for the two historical deviations); real runs: TLC fault behaviours, every single duplication and deletion position of clean streams, '
+            'seeded multi-fault bursts (<16); each stream is demuxed with and without the faults by the real Demuxer and Mon_C06 judges the two '
+            'delivered sequences (identity on PES PIDs under duplicates; every faulted delivery equals a clean unit; only hit units missing).',
+    'note': TRUST, 'technique': 'TLA+ model checking (TLC) + exhaustive fault-position enumeration judged by trace validation (Mon_C06)', 'ref': 'DESIGN.md 4 C06'}
 NOT_CLAIMED = {}
